@@ -191,6 +191,9 @@ func c04monitor(cw *caseWriter) func(tag string, in, obs []uint64) {
 					for _, e := range next.log {
 						if e[1] < prevT {
 							cw.monitor("C04", tag, "terms-decrease-in-log", "event %d: index %d term %d after term %d", i-1, e[0], e[1], prevT)
+							// a follower that answers success while its store keeps a stale suffix behind the entries sent: a later
+							// request whose previous entry is that stale index is accepted, and its FSM is handed another history
+							cw.monitor("C02", tag, "success-answered-over-a-stale-suffix", "event %d: after a successful AppendEntries the store holds index %d of term %d behind term %d", i-1, e[0], e[1], prevT)
 						}
 						prevT = e[1]
 					}
@@ -400,8 +403,42 @@ func c04gen(cw *caseWriter, tier string, r *rng) {
 	cw.stat("c04_truncate_then_stale_previous_entry_cases", q)
 }
 
+// a follower whose commit index is already at its last entry receives a batch that ENDS BELOW that commit index
+// (duplicates only: a leader whose nextIndex backed off and that sends small batches) with a LeaderCommit above
+// it: min(LeaderCommit, last new entry) is below the commit index, which must not move backwards (C05)
+func c05commitBack(cw *caseWriter, r *rng) {
+	n := 0
+	for k := 3; k <= 6; k++ {
+		for upto := 1; upto < k; upto++ {
+			for prev := 0; prev < upto; prev++ {
+				g := &nsGen{self: 1, trailing: 100, maxapp: 2, cfgtab: [][]srv{cfgSAB}}
+				g.term = 3
+				var all [][4]uint64
+				for i := 1; i <= k; i++ {
+					t := uint64(1)
+					if i > k/2 {
+						t = 2
+					}
+					all = append(all, entryOf(uint64(i), t))
+				}
+				var pt uint64
+				if prev > 0 {
+					pt = all[prev-1][1]
+				}
+				first := evAppend(3, 3, 3, 0, 0, all, uint64(k), 0, nil)
+				back := evAppend(3, 3, 3, uint64(prev), pt, all[prev:upto], uint64(k+1+r.intn(2)), 0, nil)
+				g.events = [][]uint64{first, back, evAppend(3, 3, 3, 0, 0, nil, uint64(k+1), 0, nil), back}
+				nsRun(cw, cw.tag("cb"), g.encode(), c04monitor(cw))
+				n++
+			}
+		}
+	}
+	cw.stat("c05_commit_backwards_cases", n)
+}
+
 func runC04(cw *caseWriter, tier string, seed uint64) {
 	c04gen(cw, tier, &rng{s: seed})
+	c05commitBack(cw, &rng{s: seed + 5})
 	runC101(cw, tier, seed)
 	runC103(cw, tier, seed, 1) // snapshots and compaction inside the composed cluster system (Model/ClusterCommit.v, cstep true)
 	runC104(cw, tier, seed, 3) // snapshot transfer inside the composed cluster system (Model/ClusterSnap.v)
